@@ -33,6 +33,8 @@ var (
 	// a failure that reports Timeout() and Temporary(), as a read deadline or ETIMEDOUT does: a failure like any other
 	// (same text as errOther: the client quotes the text of the failure in the errors it hands out)
 	errTimeout error = timeoutFailure{}
+	// a failure whose chain contains io.EOF (a record cut short): a failure, not a clean end of input
+	errWrapsEOF = fmt.Errorf("fchan: truncated record: %w", io.EOF)
 )
 
 // fchan is the instrumented in-memory channel handed to the server (or client)
